@@ -35,7 +35,7 @@ type Query {
 interface Node { id: ID! }
 interface Named implements Node { id: ID! name: String! }
 interface Aged { age: Int }
-type User implements Node & Named & Aged { id: ID! name: String! age: Int score: Float active: Boolean! color: Color colors: [Color!]! friends: [User!] bestFriend: User pet: Dog related: Node fav: Thing }
+type User implements Node & Named & Aged { id: ID! name: String! age: Int score: Float active: Boolean! color: Color colors: [Color!]! friends: [User!] bestFriend: User pet: Dog related: Node fav: Thing _tag: String }
 type Bot implements Node & Named { id: ID! name: String! model: String! version: Int! }
 type Dog implements Node { id: ID! barks: Boolean! owner: User }
 union Thing = User | Bot | Dog
@@ -97,7 +97,7 @@ MUST_NODE = [("id", "... on Bot { model }", "...UserF"), ("... on User { name ag
              ("...NodeF", "...UserF"), ("...NodeF", "... on Bot { model }"), ("...NamedF", "...BotF", "id"), ("...NodeInl2F", "...BotF"),
              ("id", "... on Aged { age }"), ("... on Aged { age }", "... on Bot { model }")]
 MUST_THING = [("... on Bot { model }", "...UserF"), ("... on User { name age }", "...DogF"), ("...ThingUF", "...DogF"), ("... on Named { name }", "...DogF"), ("... on Aged { age }", "...DogF")]
-MUST_USER = [("bf: bestFriend { id }", "bf2: bestFriend { name age }"), ("rel1: related { id }", "rel2: related { ... on Bot { model } }", "bestFriend { id }"), ("...RelF",), ("...FavF", "id"), ("...AlphaF",), ("...AlphaF", "name"), ("...UserF", "...NodeF", "id"), ("...UserDeepF", "pet { barks }"), ("...NestF", "...NamedF"), ("related { ... on Bot { model } }", "related { id }")]
+MUST_USER = [("_tag", "_label: name", "_buddy: bestFriend { _tag }"), ("bf: bestFriend { id }", "bf2: bestFriend { name age }"), ("rel1: related { id }", "rel2: related { ... on Bot { model } }", "bestFriend { id }"), ("...RelF",), ("...FavF", "id"), ("...AlphaF",), ("...AlphaF", "name"), ("...UserF", "...NodeF", "id"), ("...UserDeepF", "pet { barks }"), ("...NestF", "...NamedF"), ("related { ... on Bot { model } }", "related { id }")]
 
 
 def with_directive(item: str, d: str) -> str:
